@@ -1,6 +1,6 @@
 (* C16 — Index and element lookups return the element or a clean error.
    Only theorem statements here; proofs live in Proof/Index.v. *)
-From Murex Require Import Base.Outcome Base.Bytes Model.Decimal Model.Index Check.C16 Proof.Index.
+From Murex Require Import Base.Outcome Base.Bytes Model.Decimal Model.Index Check.C16 Proof.Index Proof.Decimal Proof.DecimalCor.
 Open Scope Z_scope.
 
 (* `[k]` on an array of any length n: for -n <= k < n the element k (negative k
@@ -16,6 +16,22 @@ Theorem C16_index_out_of_range_errs : forall xs key k,
   atoi key = Some k -> ~ in_range (zlen xs) k -> ito_index_array [key] xs = Err E_RANGE.
 Proof. exact index_out_of_range_errs. Qed.
 Print Assumptions C16_index_out_of_range_errs.
+
+(* The same two statements over integers: strconv.Itoa k is a text that
+   strconv.Atoi reads back as k, for every int64 k. *)
+Theorem C16_atoi_itoa : forall z, (int_min <= z <= int_max)%Z -> atoi (itoa z) = Some z.
+Proof. exact atoi_itoa. Qed.
+Print Assumptions C16_atoi_itoa.
+
+Theorem C16_index_in_range_int : forall xs k, int64 k -> in_range (zlen xs) k ->
+  exists v, spec_pick xs k = Some v /\ ito_index_array [itoa k] xs = Ok (render_index v).
+Proof. exact I16.index_in_range_int. Qed.
+Print Assumptions C16_index_in_range_int.
+
+Theorem C16_index_out_of_range_int : forall xs k, int64 k -> ~ in_range (zlen xs) k ->
+  ito_index_array [itoa k] xs = Err E_RANGE.
+Proof. exact I16.index_out_of_range_int. Qed.
+Print Assumptions C16_index_out_of_range_int.
 
 (* No list of parameters (integers or not, any number of them) makes
    itoIndexArray reach a slice access outside the array. *)
